@@ -155,6 +155,8 @@ def cases(tier):
     for fmt in ('zip_csv', 'zip_tsv', 'sqlite', 'zip_pickle'):
         yield ('encoded-labels', fmt)
         yield ('text-labels', fmt)
+    for fmt in ('sqlite', 'zip_pickle'):
+        yield ('object-columns', fmt)
 
 
 def universe(tier):
@@ -372,6 +374,11 @@ class Run:
             elif kind == 'status':
                 before = loaded_set(bus)
                 _ = (bus.status, bus.shapes, bus.dtypes, bus.mloc, bus.nbytes)
+                # the descriptive attributes of the Bus itself: none of them needs a Frame
+                meta = (bus.shape, bus.size, bus.ndim, bus.dtype, len(bus), bus.name, bus.index.values.tolist(), L[0] in bus if L else None, repr(bus.__class__))
+                if meta[:5] != ((len(L),), len(L), 1, np.dtype(object), len(L)):
+                    ctx.violation(f'{tag}|shape-size-ndim-dtype-len', **self.info, got=repr(meta[:5]))
+                    return 'violation'
                 if loaded_set(bus) != before:
                     ctx.violation(f'{tag}|status-properties-loaded-frames', **self.info, before=sorted(before), after=sorted(loaded_set(bus)))
                     return 'violation'
@@ -637,6 +644,48 @@ def run_text_labels(case, ctx):
     ctx.sample({'family': 'text-labels', 'format': fmt, 'label_sets': len(sets)}, limit=1)
 
 
+def run_object_columns(case, ctx):
+    """object columns and an object index that hold numbers next to text and None: every cell and label comes back with its value AND its type
+    (sqlite declares such a column without a type affinity; pickle keeps everything)"""
+    _, fmt = case
+    to, frm, ext, needs_cfg = FORMATS[fmt]
+    def obj(vals):
+        a = np.empty(len(vals), dtype=object)
+        for i, v in enumerate(vals):
+            a[i] = v
+        a.flags.writeable = False
+        return a
+    f1 = sf.Frame.from_items((('p', obj([10, 'x', None, 40])), ('q', obj([1.5, 'y', 2, 'z'])), ('r', np.array([1, 2, 3, 4]))), index=sf.Index(obj([1, 'k', 2, 'm'])), name='o1')
+    f2 = sf.Frame.from_items((('p', obj(['7', 7, 7.5])),), index=('a', 'b', 'c'), name='o2')
+    fs = [f1, f2]
+    cfg = sf.StoreConfig(index_depth=1)
+    path = os.path.join(workdir(), f'obj_{os.getpid()}{ext}')
+    if os.path.exists(path):
+        os.remove(path)
+    ctx.transition()
+    ctx.state(('object-columns', fmt))
+    ctx.nontriv(('object-columns', fmt))
+    info = dict(format=fmt)
+    typed = lambda seq: [(type(v).__name__ if not isinstance(v, (int, np.integer)) or isinstance(v, bool) else 'int', v) if not isinstance(v, (float, np.floating)) else ('float', float(v)) for v in seq]
+    try:
+        getattr(sf.Bus.from_frames(fs), to)(path, config=cfg)
+        for mp in (None, 1):
+            bus = getattr(sf.Bus, frm)(path, config=cfg, max_persist=mp)
+            for f in fs:
+                g = bus[f.name]
+                for c in f.columns:
+                    if typed(g[c].values.tolist()) != typed(f[c].values.tolist()):
+                        ctx.violation(f'{fmt}|object-columns|cells', **info, label=f.name, column=c, got=repr(g[c].values.tolist()), expected=repr(f[c].values.tolist()))
+                if typed(g.index.values.tolist()) != typed(f.index.values.tolist()):
+                    ctx.violation(f'{fmt}|object-columns|index-labels', **info, label=f.name, got=repr(g.index.values.tolist()), expected=repr(f.index.values.tolist()))
+    except Exception as e:
+        ctx.violation(f'{fmt}|object-columns|raises-{type(e).__name__}', **info, error=repr(e))
+    if os.path.exists(path):
+        os.remove(path)
+    ctx.outcome('object-columns')
+    ctx.sample({'family': 'object-columns', 'format': fmt}, limit=1)
+
+
 def run_wide_slices(case, ctx):
     '''six Frames; every set of at most two labels loaded beforehand (in either order); then a slice key that spans loaded and deferred Frames; then every
     label read back: whatever a Bus holds or returns for a label is the Frame an eager load returns for it, and never more than max_persist are held'''
@@ -695,4 +744,6 @@ def run_case(case, ctx):
         return run_encoded_labels(case, ctx)
     if case[0] == 'text-labels':
         return run_text_labels(case, ctx)
+    if case[0] == 'object-columns':
+        return run_object_columns(case, ctx)
     {'history': run_history, 'faults': run_faults, 'roundtrip': run_roundtrip}[case[0]](case, ctx)
